@@ -33,8 +33,8 @@ def plan(tier, seed):
 
 
 def floors(tier):
-    return {"evaluations": 10000, "strata": ["forward", "reversed-domain", "reversed-range"],
-            "events": {"TimeScale.eval.__call__": 100000, "TimeScale.eval.invert": 20000}, "distinct_nontrivial": 5000}
+    return {"evaluations": 5000, "strata": ["forward", "reversed-domain", "reversed-range"],
+            "events": {"TimeScale.eval.__call__": 50000, "TimeScale.eval.invert": 10000}, "distinct_nontrivial": 5000}
 
 
 def rand_range(rng):
